@@ -450,17 +450,22 @@ def _rescale(case):
                     m.set_data(a.astype(np.float32))
                     m.voxel_size = orig * 10
                 if src == "from_files":
+                    # a second file with ANOTHER pixel size in its header comes first: every file is resampled from its own pixel size
                     p2 = os.path.join(tmp, "u.mrc")
                     with mrcfile.new(p2, overwrite=True) as m:
                         m.set_data((a * 2).astype(np.float32))
-                        m.voxel_size = orig * 10
+                        m.voxel_size = orig * 10 * 2.0
                     both = pipe.from_files([p2, p], **tolkw)(scale)
-                    if len(both) != 2 or np.abs(np.asarray(both[0]) - 2 * np.asarray(both[1])).max() > 1e-4 * max(1.0, float(np.abs(a).max())):
-                        raise AssertionError("from_files: images not in the order of the paths")
+                    alone = np.asarray(pipe.from_file(p2, **tolkw)(scale))
+                    if len(both) != 2 or np.asarray(both[0]).shape != alone.shape or np.abs(np.asarray(both[0]) - alone).max() > 1e-5 * max(1.0, float(np.abs(alone).max())):
+                        raise AssertionError(f"from_files: first image {np.asarray(both[0]).shape} is not from_file of the first path {alone.shape}")
                     return both[1]
                 return pipe.from_file(p, **tolkw)(scale)
 
-        out = np.asarray(get(img))
+        try:
+            out = np.asarray(get(img))
+        except AssertionError as e:
+            return {"nontrivial": True, "outcome": "rescale", "viol": [(f"{ID}|rescale|{src}|file-list", f"ratio {ratio}: {e}")]}
         want = tuple(int(round(s * ratio)) for s in n)
         unchanged = abs(ratio - 1) < (0.01 if case.get("tol") is None else case["tol"])
         if unchanged:
